@@ -174,6 +174,10 @@ func implExec(flags uint64, unlock, lock []byte, txd string, idx int, sats uint6
 	if !bytes.Equal(u0, unlock) || !bytes.Equal(l0, lock) {
 		mut |= 1
 	}
+	// the caller's Script values themselves (a write through the pointer replaces the slice, not the bytes behind it)
+	if !bytes.Equal(u0, []byte(*us)) || !bytes.Equal(l0, []byte(*ls)) {
+		mut |= 4
+	}
 	if tx != nil && !bytes.Equal(tx0, tx.Bytes()) {
 		mut |= 2
 	}
